@@ -120,7 +120,14 @@ func (r *PairRun) Enabled() []wx.Op {
 			removeAll := false
 			if o.K == OpBatchRemoveEnt {
 				spec, _, _ := decodeRef(o.A)
+				// only in component-less scenarios: with components the two worlds store the entities in different
+				// tables, so a batch removal legitimately recycles them in a different order
 				removeAll = r.a.cfg.Filters[spec].Name == "All()"
+				for _, set := range r.a.cfg.Sets {
+					if len(set) > 0 {
+						removeAll = false
+					}
+				}
 			}
 			if !(emptySet || removeAll || o.K == OpRemoveEntity) {
 				continue
